@@ -155,7 +155,9 @@ def selftest(shard, wd):
       want.add("C31.parallel")
       done["direct"] = True
   p = os.path.join(wd, "selftest-shard.json")
-  json.dump({"ints": d["ints"], "traces": [tr]}, open(p, "w"))
+  json.dump({"ints": d["ints"], "elems": d.get("elems", {}), "strs": d.get("strs", {}),
+             "helpers": d.get("helpers", {}), "traces": [tr]},
+            open(p, "w"))
   verdicts, _ = tlc.validate_shards("Trace_Doc", [p], wd, parallel=1)
   got = {f["c"] for v in verdicts for f in v["v"]}
   if not want or not want <= got:
